@@ -197,3 +197,7 @@ impl BlockRecoverRunner {
         Ok(recovered)
     }
 }
+
+#[cfg(kani)]
+#[path = "/verif/harness/foyer-storage/recover.rs"]
+mod verif_kani;
